@@ -468,6 +468,7 @@ Lemma import_message_signals_plain : forall env st mpos dm st' sigs,
 Proof.
   intros env st mpos dm st' sigs Hn H. unfold import_message_signals in H.
   fold (sorted_signals dm) in H. rewrite (no_muxor_filter dm Hn) in H.
+  destruct (existsb _ _); [discriminate|].
   apply plain_signals_fold in H. destruct H as [new [Hs [Hf _]]].
   cbn [app] in Hs. subst sigs. rewrite index_from_snd in Hf. exact Hf.
 Qed.
